@@ -860,6 +860,9 @@ func (db *DB) Close(ctx context.Context) (err error) {
 	db.f = nil
 	db.opened = false
 	db.rtx = nil
+	// The in-memory WAL cursor is only valid while the read lock is held;
+	// the WAL may be checkpointed or rewritten arbitrarily while closed.
+	db.syncState = syncState{}
 	db.mu.Unlock()
 
 	if sqlDB != nil {
